@@ -217,6 +217,11 @@ func (s *sim) oracle(kind string, g int, n int64, res string, b, a snapshot, met
 			break
 		}
 		v, _ := strconv.ParseInt(res, 10, 64)
+		if bp.c < -1 {
+			// only after an explicit reset below -1: the result -1 is then ambiguous (sequence -1 or
+			// "nothing available"); the positions are still compared with the model
+			break
+		}
 		if v != -1 {
 			if v != bp.c+1 || ap.c != v || ap.a != bp.a {
 				s.fail("consume-not-consecutive", "consumed was %d, Consume returned %d, positions now %v", bp.c, v, ap)
@@ -280,11 +285,17 @@ func (s *sim) oracle(kind string, g int, n int64, res string, b, a snapshot, met
 	if s.reset {
 		return
 	}
-	// (1) and the second half of (5): flagged at the operation that breaks them
+	// (1) and the second half of (5): flagged at the operation that breaks them. "Before" is the
+	// group's live position, or — for a group that was not live (stopped, now re-created or
+	// resurrected by reopen) — the content of its meta page.
 	for id, p := range a.g {
+		m, hadMeta := metaBefore[id]
 		old, was := b.g[id]
-		if !ordered(p, a.app) && (!was || ordered(old, b.app)) {
-			m, hadMeta := metaBefore[id]
+		if !was && hadMeta {
+			old = m
+		}
+		known := was || hadMeta
+		if !ordered(p, a.app) && (!known || ordered(old, b.app)) {
 			if (kind == "create" || kind == "reopen") && hadMeta && p.a > p.c && p.c == m.c && m.a < a.ack && p.a == a.ack {
 				s.fail(keyRestoreOrder, "%s restored group %d from meta %v with queue ack %d as %v: ack > consumed", kind, id, m, a.ack, p)
 			} else {
@@ -292,7 +303,6 @@ func (s *sim) oracle(kind string, g int, n int64, res string, b, a snapshot, met
 			}
 		}
 		if p.a < a.ack && (!was || old.a >= b.ack) {
-			_, hadMeta := metaBefore[id]
 			if kind == "create" && !hadMeta && p == (gpos{-1, -1}) {
 				s.fail(keyFreshBelow, "new group %d starts at %v while the queue ack is %d: its next Consume returns %d, which Get refuses", id, p, a.ack, p.c+1)
 			} else {
